@@ -1,6 +1,7 @@
 package gen
 
 import (
+	"bytes"
 	"encoding/binary"
 	"encoding/hex"
 	"encoding/json"
@@ -44,7 +45,8 @@ type Span struct {
 }
 
 type SpanCase struct {
-	Spans []Span
+	Spans  []Span
+	Reused int // spans that were given the span id of a span of another trace
 }
 
 // Flat is the flattening the property defines: nested lists/maps by dotted path.
@@ -80,6 +82,9 @@ type SpanOpts struct {
 	Zipkin   bool // only string attributes, µs timestamps
 	Nested   bool
 	BigAttrs bool
+	// ReuseSpanIDs: some spans of DIFFERENT traces share a span id (ids are unique per trace only; all-zero-but-one
+	// and all-ff ids from independent SDK instances collide in practice)
+	ReuseSpanIDs bool
 }
 
 func randAttr(r *rand.Rand, key string, o SpanOpts, depth int) Attr {
@@ -195,6 +200,29 @@ func NewSpanCase(r *rand.Rand, o SpanOpts) SpanCase {
 			s.Attrs = append(s.Attrs, Attr{Key: "big.blob", Kind: "str", S: strings.Repeat(SafeStr(r, 5, 9), 12000)})
 		}
 		c.Spans = append(c.Spans, s)
+	}
+	if o.ReuseSpanIDs {
+		for i := 1; i < len(c.Spans); i++ {
+			j := r.Intn(i)
+			if r.Intn(2) == 0 && !bytes.Equal(c.Spans[i].TraceID, c.Spans[j].TraceID) {
+				used := false
+				for k := range c.Spans {
+					if k != i && bytes.Equal(c.Spans[k].TraceID, c.Spans[i].TraceID) && bytes.Equal(c.Spans[k].SpanID, c.Spans[j].SpanID) {
+						used = true
+					}
+				}
+				if !used {
+					old := c.Spans[i].SpanID
+					c.Spans[i].SpanID = append([]byte{}, c.Spans[j].SpanID...)
+					for k := range c.Spans { // children of the renamed span inside its trace follow it
+						if bytes.Equal(c.Spans[k].TraceID, c.Spans[i].TraceID) && bytes.Equal(c.Spans[k].ParentID, old) {
+							c.Spans[k].ParentID = c.Spans[i].SpanID
+						}
+					}
+					c.Reused++
+				}
+			}
+		}
 	}
 	return c
 }
